@@ -16,7 +16,7 @@ RULE = (
     "exist), then one invalid request of a generated kind - Kraus set that is not trace preserving (scaled, one "
     "operator dropped, one operator damped), Kraus / POVM / custom operators of the wrong size, operation type "
     "vs subsystem kind mismatch, subsystem from outside the composite envelope (operation, channel, combine), "
-    "annihilating an exact vacuum, shrinking a Fock space to or below its highest occupied level, any use "
+    "annihilating an exact vacuum (built-in annihilation, or a custom lowering matrix / projector onto an unoccupied level), shrinking a Fock space to or below its highest occupied level, any use "
     "(operation, channel, measurement, POVM) of a destroyed subsystem, a required parameter missing - issued "
     "through subsystem / envelope / composite entry at the layout the prefix produced, then 1-3 valid steps. "
     "Oracle: the call raises (any exception) or returns False (resize); the joint density matrix reconstructed "
